@@ -219,6 +219,15 @@ class FnTranslator:
             if key.startswith("self.") or key in self.types:
                 return self.param(key)
             self.err(node, "attribute %s" % key)
+        if isinstance(node, ast.Subscript):
+            # (additive, C04) a subscript is accepted only when its exact source text is declared in
+            # `types` (e.g. "self.pilot_signals.shape[1]"): it becomes a parameter of that type
+            key = self.txt(node)
+            if key in env:
+                return env[key]
+            if key in self.types:
+                return self.param(key)
+            self.err(node, "subscript %s" % key)
         if isinstance(node, ast.UnaryOp):
             a, t = self.expr(node.operand, env)
             if isinstance(node.op, ast.USub) and t == "num":
@@ -249,6 +258,22 @@ class FnTranslator:
             return self.compare(node, env)
         if isinstance(node, ast.BoolOp):
             return self.boolop(node, env)
+        if isinstance(node, ast.IfExp) and self._none_test(node.test) is not None:
+            # (additive, C04) `A if x is not None else B` / `A if x is None else B` on a declared
+            # optional: the branch guarded by `is not None` sees x unwrapped
+            xnode, is_none = self._none_test(node.test)
+            x, tx = self.expr(xnode, env)
+            if not tx.startswith("opt"):
+                self.err(node, "`is None` on a non-optional (%s)" % self.txt(xnode))
+            inner = self.newname(self.txt(xnode))
+            env2 = dict(env)
+            env2[self.txt(xnode)] = (inner, "num")
+            some_node, none_node = (node.orelse, node.body) if is_none else (node.body, node.orelse)
+            a, ta = self.expr(some_node, env2)
+            b, tb = self.expr(none_node, env)
+            if ta != tb:
+                self.err(node, "conditional expression types")
+            return ("(match %s with None => %s | Some %s => %s end)" % (x, b, inner, a), ta)
         if isinstance(node, ast.IfExp):
             c, tc = self.expr(node.test, env)
             a, ta = self.expr(node.body, env)
@@ -625,7 +650,8 @@ class FnTranslator:
             env[k] = self.expr(defaults[k], {})
         arg_params = [k for k in self.argnames if k not in inline_defaults]
         for k in arg_params:
-            self.param(k)
+            if not spec.get("only_used_args"):     # (additive, C04) path anchors may omit unused arguments
+                self.param(k)
         if "expr_path" in spec:
             node = resolve_path(fn, spec["expr_path"], self.where)
             if not isinstance(node, ast.expr):
@@ -633,6 +659,24 @@ class FnTranslator:
             self.needs_record = False
             body, rt = self.expr(node, env)
             self.ret_type = rt
+        elif "stmt_path" in spec:
+            # (additive, C04) translate one statement (or a statement list) addressed by path and
+            # return the final value of the local variable named by spec["result"]
+            node = resolve_path(fn, spec["stmt_path"], self.where)
+            stmts = node if isinstance(node, list) else [node]
+            if not stmts or not all(isinstance(x, ast.stmt) for x in stmts):
+                raise Untranslatable("%s: %s is not a statement" % (self.where, spec["stmt_path"]))
+            if self.has_exit(stmts):
+                raise Untranslatable("%s: %s contains return/raise" % (self.where, spec["stmt_path"]))
+            self.needs_record = False
+            resvar = spec["result"]
+
+            def fin(e):
+                if resvar not in e:
+                    raise Untranslatable("%s: %s does not define %s" % (self.where, spec["stmt_path"], resvar))
+                self.ret_type = e[resvar][1]
+                return e[resvar][0]
+            body = self.block(stmts, env, fin)
         else:
             stmts = fn.body
             self.has_raise = any(isinstance(n, ast.Raise) for s in stmts for n in ast.walk(s))
